@@ -21,11 +21,14 @@ def _generators():
     gens = [('Bivariate', gen_bivariate.generate)]
     for name, modname in (('Univariate', 'gen_univariate'), ('Tables', 'gen_tables'),
                           ('Effects', 'gen_effects'), ('Select', 'gen_select')):
+        if not os.path.exists(os.path.join(os.path.dirname(os.path.abspath(__file__)), modname + '.py')):
+            continue
         try:
             mod = __import__(modname)
             gens.append((name, mod.generate))
-        except ImportError:
-            pass
+        except Exception:  # a generator that cannot even be imported = its target cannot be translated
+            err = traceback.format_exc()[-400:]
+            gens.append((name, (lambda e: (lambda repo: (_ for _ in ()).throw(RuntimeError(e))))(err)))
     return gens
 
 
